@@ -1614,13 +1614,17 @@ class BaseEvolutionOperations(object):
         if not old_indexes:
             old_indexes = []
 
+        # The same index may be described with its keys in a different order
+        # (depending on whether the value came from the signature, from a
+        # hinted evolution, or from an evolution file), so normalize the
+        # order before comparing.
         old_indexes_map = {
-            repr(index_info): index_info
+            repr(sorted(six.iteritems(index_info))): index_info
             for index_info in old_indexes
         }
 
         new_indexes_map = {
-            repr(index_info): index_info
+            repr(sorted(six.iteritems(index_info))): index_info
             for index_info in new_indexes
         }
 
